@@ -134,7 +134,7 @@ impl Scenario for Tl {
             assert!(self.scale == 1 || self.scale == 101);
             let f: fn(&Req) -> Duration = if self.scale == 101 { per_req_x101 } else { per_req };
             let layer = if self.flag_first {
-                TimeLimiterLayer::builder().cancel_running_future(self.cancel).timeout_fn(f).build()
+                TimeLimiterLayer::builder().cancel_running_future(self.cancel).timeout_fn(f).on_success(move |_| {}).on_error(move |_| {}).on_timeout(|| {}).build()
             } else {
                 TimeLimiterLayer::builder().timeout_fn(f).cancel_running_future(self.cancel).build()
             };
@@ -147,7 +147,7 @@ impl Scenario for Tl {
             })
         } else {
             let layer = if self.flag_first {
-                TimeLimiterLayer::builder().cancel_running_future(self.cancel).timeout_duration(Duration::from_millis(20 * self.scale)).build()
+                TimeLimiterLayer::builder().cancel_running_future(self.cancel).timeout_duration(Duration::from_millis(20 * self.scale)).on_success(move |_| {}).on_error(move |_| {}).on_timeout(|| {}).build()
             } else {
                 TimeLimiterLayer::builder().timeout_duration(Duration::from_millis(20 * self.scale)).cancel_running_future(self.cancel).build()
             };
